@@ -49,7 +49,7 @@ pub struct Token {
 #[serde(transparent)]
 pub struct ECDHPubkey {
 	/// public key, flattened
-	#[serde(with = "secp_ser::pubkey_serde")]
+	#[serde(with = "crate::libwallet::dalek_ser::safe_secp_ser::pubkey_serde")]
 	pub ecdh_pubkey: PublicKey,
 }
 
